@@ -574,6 +574,7 @@ def o_C15(ctx):
         for k, msg in (("x_parse_eq", "parse() and visit() with a recording visitor return different results"),
                        ("x_emptyvisit_eq", "visit() with the empty visitor and with a recording visitor return different results"),
                        ("x_zst", "visit() with a zero-sized visitor and with a recording visitor differ (result or callbacks)"),
+                       ("x_reuse", "a visitor object used for two consecutive visits of the same bytes gets different callbacks or a different result the second time"),
                        ("x_reparse", "re-parsing the serialized bytes of the parsed object does not give an equal object with empty remainder"),
                        ("x_revisit", "re-visiting the serialized bytes does not reproduce the object / the callback sequence"),
                        ("x_selfvisit", "self_visit does not reproduce the object / the callback sequence")):
